@@ -82,5 +82,12 @@ Definition dstep (bounded : bool) (s : dstate) (o : dop) : dstate :=
 Definition dinit : dstate := {| desired := []; pending := []; stream := None; requests := 0; stuck := false |}.
 Definition drun (bounded : bool) (l : list dop) : dstate := fold_left (dstep bounded) l dinit.
 
+(* one response of the dependency stream, as the wrapped hook of discoveryClient.StreamDependencies turns it into calls:
+   the added services are subscribed, then the removed ones unsubscribed *)
+Definition dep_response (r : list N * list N) : list dop := map DSubscribe (fst r) ++ map DUnsubscribe (snd r).
+Definition dep_history (rs : list (list N * list N)) : list dop := flat_map dep_response rs.
+(* the dependency set after a response *)
+Definition dep_apply (s : nset) (r : list N * list N) : nset := server_apply (fst r) (snd r) s.
+
 (* set equality as far as membership goes *)
 Definition same_set (a b : nset) : Prop := forall x, smem x a = smem x b.
